@@ -147,9 +147,113 @@ pub fn run_scenario(seed: u64, i: usize, tier: Tier) -> Outcome {
     o
 }
 
-pub fn run(tier: Tier, seed: u64, only: Option<usize>) -> i32 {
+/// The same policy on a clock of finite resolution: reads do not move the clock, time passes only
+/// while the tracer waits on a socket, all delays are whole milliseconds.  The instants the code
+/// samples are then exactly the instants the harness sees, so "more than" can be told from "at
+/// least": a round published exactly min / grace / max after its reference instant is a violation.
+pub fn run_coarse(seed: u64, i: usize, tier: Tier) -> Outcome {
+    use trippy_core::{CompletionReason, ProbeStatus};
+    let mut o = Outcome::default();
+    let mut r = Prng::new(seed ^ (i as u64).wrapping_mul(0x9E37_79B9_7F4A_7C15) ^ 0xC0A25E);
+    let protocol = *r.pick(&[Protocol::Icmp, Protocol::Icmp, Protocol::Udp, Protocol::Tcp]);
+    let v6 = r.chance(1, 4);
+    let cell = Cell {
+        protocol,
+        v6,
+        strategy: MultipathStrategy::Classic,
+        ports: match protocol {
+            Protocol::Icmp => 0,
+            Protocol::Udp => 1,
+            Protocol::Tcp => 2,
+        },
+        unprivileged: false,
+        ext: false,
+    };
+    let mut tcfg = cell.trace_cfg();
+    let min = *r.pick(&[0u64, 10, 50]);
+    let max = *r.pick(&[min, min + 10, min + 40, 300]);
+    let grace = *r.pick(&[0u64, 1, 10, 20]);
+    let rt = *r.pick(&[1u64, 10]);
+    tcfg.min_round = ms(min);
+    tcfg.max_round = ms(max);
+    tcfg.grace = ms(grace);
+    tcfg.read_timeout = ms(rt);
+    tcfg.tcp_connect_timeout = ms(max.max(50));
+    tcfg.max_rounds = Some(tier.pick(6, 10));
+    tcfg.max_ttl = 6;
+    let dist = r.range(1, 4) as usize;
+    let mut hop = |addr: std::net::IpAddr, r: &mut Prng| {
+        let d = r.range(0, 70);
+        let mut s = HopSpec::simple(addr, d.max(1) * 1_000_000);
+        s.quote = Quote::Full;
+        if d == 0 {
+            s.behaviour = Behaviour::Silent;
+        }
+        s
+    };
+    let hops: Vec<HopSpec> = (0..dist - 1).map(|h| hop(scen::hop_addr(v6, h, 0), &mut r)).collect();
+    let t = hop(tcfg.target, &mut r);
+    let topo = Topology { hops, target: t, tcp: *r.pick(&[TcpMode::SynAck, TcpMode::Rst]) };
+    let wcfg = world_cfg(topo, seed ^ i as u64);
+    let site = format!("{}|coarse-clock", cell.name());
+    let mut replay = replay_of("C08", seed, i, &tcfg, &wcfg.topo);
+    replay["how"] = json!(format!("vcheck C08 --seed {seed} --only coarse:{i}"));
+    let install = |world: &std::sync::Arc<crate::world::World>| world.clock.set_step(0);
+    let Some((world, run)) = run_guarded(&wcfg, &tcfg, false, install, &mut o, &site, &replay, &format!("coarse scenario {i}")) else {
+        return o;
+    };
+    let w = world.inner.lock().unwrap();
+    if let Err(e) = &run.result {
+        o.violate("run_completes", format!("{site}|{}", e.split(':').next().unwrap_or("")), format!("run failed: {e}"), replay.clone());
+    }
+    let (min_ns, max_ns, grace_ns, rt_ns) = (min * 1_000_000, max * 1_000_000, grace * 1_000_000, rt * 1_000_000);
+    let mut start = loop_start(&w, 0);
+    for round in &run.rounds {
+        let dur = round.t_publish - start;
+        let last = round
+            .probes
+            .iter()
+            .filter_map(|p| match p {
+                ProbeStatus::Complete(c) => Some(crate::sim::st_ns(c.received)),
+                _ => None,
+            })
+            .max();
+        let found = round.reason == CompletionReason::TargetFound;
+        let since = last.map(|l| round.t_publish.saturating_sub(l));
+        let by_max = dur > max_ns;
+        let by_target = found && dur > min_ns && since.is_some_and(|s| s > grace_ns);
+        o.hit("published_only_when_policy_allows");
+        o.observe("coarse_clock_cases", format!("target={} dur-min={:?} since-grace={:?} dur-max={:?}", u8::from(found), dur.cmp(&min_ns), since.map(|s| s.cmp(&grace_ns)), dur.cmp(&max_ns)));
+        if !(by_max || by_target) {
+            o.violate(
+                "published_only_when_policy_allows",
+                site.clone(),
+                format!("round {}: published exactly {dur}ns after it started and {since:?}ns after its last response (target answered = {found}); min {min_ns} max {max_ns} grace {grace_ns}: the durations must be exceeded, not reached", round.index),
+                replay.clone(),
+            );
+        }
+        if round.reason == CompletionReason::RoundTimeLimitExceeded && !by_max {
+            o.hit("reason_tells_which");
+            o.violate("reason_tells_which", format!("{site}|time-limit-before-max"), format!("round {}: time limit reason after {dur}ns <= max {max_ns}", round.index), replay.clone());
+        }
+        o.hit("never_held_longer_than_max_plus_read_timeout");
+        if dur > max_ns + rt_ns {
+            o.violate("never_held_longer_than_max_plus_read_timeout", site.clone(), format!("round {}: open for {dur}ns > max {max_ns} + read timeout {rt_ns}", round.index), replay.clone());
+        }
+        start = round.t_publish;
+    }
+    o.count("coarse_clock_rounds", run.rounds.len() as u64);
+    if !run.rounds.is_empty() {
+        o.nontrivial = Some(format!("coarse|{protocol}|min{min}|max{max}|grace{grace}|rt{rt}"));
+    }
+    o
+}
+
+const TIMING_CLAUSES: [&str; 5] = ["published_only_when_policy_allows", "published_as_soon_as_policy_allows", "reason_tells_which", "never_held_longer_than_max_plus_read_timeout", "next_round_starts_at_publish"];
+
+pub fn run(tier: Tier, seed: u64, only: Option<String>) -> i32 {
     let mut rep = Report::new("C08", "exploration", tier, seed);
-    rep.rule = "scenario = (min in {0,50,1000}ms, max in {min, min+1, min+40, 5000}ms, grace in {0,10,100,1000}ms, read timeout in {1,10,100}ms) x duplicated responses (one scenario in four) x unrelated inbound traffic (an ignored ICMP echo request every half read timeout, one scenario in five) x response placement of each hop and of the target at {never, ~0, 0.2 min, 0.9 min, between min and max, inside the grace window before max, after max}; the 16 combinations of (target answered, duration > min, grace elapsed, duration > max) observed at publish time are listed under distinct_observed.timing_cases; non-trivial = at least one round published; distinct by (protocol, timing setting, target placement)".into();
+    rep.rule = "coarse-clock scenarios (a clock of finite resolution: reads do not move it, all delays whole ms; min in {0,10,50}, max in {min,min+10,min+40,300}, grace in {0,1,10,20}, read timeout in {1,10} ms) decide 'exceeds' against 'reaches' exactly; stale-slot worlds (the C03 workload) are judged by the timing clauses; main scenario = (min in {0,50,1000}ms, max in {min, min+1, min+40, 5000}ms, grace in {0,10,100,1000}ms, read timeout in {1,10,100}ms) x duplicated responses (one scenario in four) x unrelated inbound traffic (an ignored ICMP echo request every half read timeout, one scenario in five) x response placement of each hop and of the target at {never, ~0, 0.2 min, 0.9 min, between min and max, inside the grace window before max, after max}; the 16 combinations of (target answered, duration > min, grace elapsed, duration > max) observed at publish time are listed under distinct_observed.timing_cases; non-trivial = at least one round published; distinct by (protocol, timing setting, target placement)".into();
     rep.assumptions = vec![
         "durations are evaluated at the publish callback instant, which is >= the instant the code sampled (durations are monotone, so this can only err towards silence); 10us of slack covers 1ns clock ticks".into(),
         "select() has millisecond granularity, as in trippy's real socket implementation".into(),
@@ -157,14 +261,35 @@ pub fn run(tier: Tier, seed: u64, only: Option<usize>) -> i32 {
     rep.required_clauses = vec!["published_only_when_policy_allows", "reason_tells_which", "never_held_longer_than_max_plus_read_timeout", "next_round_starts_at_publish"];
     let n = tier.pick(50_000, 1_500_000);
     match only {
-        Some(i) => {
-            let o = run_scenario(seed, i, tier);
+        Some(s) => {
+            let o = if let Some(k) = s.strip_prefix("coarse:") {
+                run_coarse(seed, k.parse().unwrap_or(0), tier)
+            } else if let Some(k) = s.strip_prefix("stale:") {
+                crate::props::c03::run_stale(seed ^ 0xC08, k.parse().unwrap_or(0), &crate::scen::all_cells(false), tier).retain_clauses(&TIMING_CLAUSES, "stale-slot")
+            } else {
+                run_scenario(seed, s.parse().unwrap_or(0), tier)
+            };
             for v in &o.violations {
                 println!("{}: {}", v.signature(), v.detail);
             }
             rep.merge(o);
         }
-        None => rep.run_parallel(n, |i| run_scenario(seed, i, tier)),
+        None => {
+            // stale-slot worlds (the C03 workload) judged by the timing clauses: a packet that
+            // answers no probe of this round must not end it, nor restart its grace period
+            let cells = crate::scen::all_cells(false);
+            let n_stale = tier.pick(96, 960);
+            let n_coarse = tier.pick(4_000, 100_000);
+            rep.run_parallel(n + n_stale + n_coarse, |i| {
+                if i < n {
+                    run_scenario(seed, i, tier)
+                } else if i < n + n_stale {
+                    crate::props::c03::run_stale(seed ^ 0xC08, i - n, &cells, tier).retain_clauses(&TIMING_CLAUSES, "stale-slot")
+                } else {
+                    run_coarse(seed, i - n - n_stale, tier)
+                }
+            })
+        }
     }
     rep.finish()
 }
